@@ -96,6 +96,16 @@ macro_rules! acyclic_runner {
                 ck!(tail == seq[seq.len() / 2..].to_vec(), "range", "{at}: range(pos({mid})..) = {tail:?}");
                 let head: Vec<usize> = g.range(..p).map(|x| x.index()).collect();
                 ck!(head == seq[..seq.len() / 2].to_vec(), "range", "{at}: range(..pos({mid})) = {head:?}");
+                // the other bound kinds: one position inclusive, empty, and a window of up to three positions
+                let one: Vec<usize> = g.range(p..=p).map(|x| x.index()).collect();
+                ck!(one == vec![mid], "range", "{at}: range(pos({mid})..=pos({mid})) = {one:?}");
+                ck!(g.range(p..p).next().is_none(), "range", "{at}: range(p..p) is not empty");
+                let hi = (seq.len() / 2 + 2).min(seq.len() - 1);
+                let q = g.get_position(NodeIndex::new(seq[hi]));
+                let win: Vec<usize> = g.range(p..=q).map(|x| x.index()).collect();
+                ck!(win == seq[seq.len() / 2..=hi].to_vec(), "range", "{at}: range(pos({mid})..=pos({})) = {win:?}", seq[hi]);
+                let win2: Vec<usize> = g.range(p..q).map(|x| x.index()).collect();
+                ck!(win2 == seq[seq.len() / 2..hi].to_vec(), "range", "{at}: range(pos({mid})..pos({})) = {win2:?}", seq[hi]);
             }
             // is_valid_edge predicts exactly the insertions that keep the graph acyclic
             for &a in &live {
